@@ -243,3 +243,37 @@ def type_graph(domain):
     from pddl_plus_parser.models import create_type_hierarchy_graph
     g = create_type_hierarchy_graph(domain.types)
     return sorted([a, b] for a, b in g.edges()), sorted(g.nodes())
+
+
+# ---------------------------------------------------------------------------------------
+# grounding (C20)
+
+def _lit(gp):
+    """GroundedPredicate -> [positive, name, [objects], [type names]] (signature order)"""
+    return [bool(gp.is_positive), gp.name, list(gp.grounded_objects), [t.name for t in gp.signature.values()]]
+
+
+def observe_grounding(domain, act, args, objects):
+    from pddl_plus_parser.models import GroundedPredicate as GP, NumericalExpressionTree as NET
+    try:
+        op = new_operator(domain, act, args, objects)
+        op.ground()
+        lits, nums = [], []
+        for _, cond in op.grounded_preconditions:
+            if isinstance(cond, GP):
+                lits.append(_lit(cond))
+            elif isinstance(cond, NET):
+                nums.append(sexp_reader.read(cond.to_pddl()))
+        groups = []
+        for g in op.grounded_effects:
+            groups.append({"adds": [_lit(x) for x in g.grounded_discrete_effects if x.is_positive],
+                           "dels": [_lit(x) for x in g.grounded_discrete_effects if not x.is_positive],
+                           "nums": [sexp_reader.read(x.to_pddl()) for x in g.grounded_numeric_effects]})
+        call = sexp_reader.read_plain(op.typed_action_call)
+        typed = []
+        rest = call[1:]
+        for i in range(0, len(rest), 3):
+            typed.append([rest[i], rest[i + 2]])
+        return {"pre_lits": lits, "pre_nums": nums, "groups": groups, "call": [call[0], typed]}
+    except Exception as e:  # noqa: BLE001
+        return {"exc": exc_name(e)}
